@@ -35,6 +35,7 @@ def run(chk):
     )
     chk.not_decided = "that the response parser consumes exactly one response's bytes (C03/C10), timing of bytes relative to release (covered only through the predicate re-evaluation)."
     chk.explanation += " After the defect hunt: every await of the request writer task before the body is complete closes the connection on cancellation; a 101 latches should_close; input buffered inside the parser counts for should_close."
+    chk.explanation += " Round 4 / second hunt: end-of-body only at message completion; only a 101 switches the parser to upgraded mode; a dirty idle connection closes itself (idle flag) or is re-checked at reuse; `Connection: close` requests and short request bodies make the connection non-reusable; _request() closes a started response it does not return."
     bc = repo.cls(CONN, "BaseConnector")
     rel = repo.func(CONN, "BaseConnector._release")
     get = repo.func(CONN, "BaseConnector._get")
